@@ -91,7 +91,7 @@ func c10GenPart(rng *h.Rng, first bool) c10JPart {
 		return c10JPart{"." + id, id}
 	case 2:
 		n := rng.Intn(1000)
-		return c10JPart{"[" + strconv.Itoa(n) + "]", strconv.Itoa(n + 1)}
+		return c10JPart{"[" + strconv.Itoa(n) + "]", "#" + strconv.Itoa(n+1)} // an index: the integer n+1 (NewIntVal)
 	}
 	// a quoted field name
 	var s string
@@ -123,8 +123,8 @@ func c10JsonParser(r *h.Result, rng *h.Rng, n int) error {
 			for q := 0; q < k; q++ {
 				p := c10GenPart(rng, q == 0)
 				text += p.text
-				if p.want == "" {
-					parts = append(parts, ".")
+				if strings.HasPrefix(p.text, "[") && !strings.HasPrefix(p.text, "[\"") && strings.HasPrefix(p.want, "#") {
+					parts = append(parts, p.want)
 				} else {
 					parts = append(parts, h.Hex([]byte(p.want)))
 				}
@@ -175,7 +175,7 @@ func c10JsonParser(r *h.Result, rng *h.Rng, n int) error {
 		}
 		r.Case(key, true)
 		r.Count("jsonparser:compared")
-		ops = append(ops, fmt.Sprintf("c10json %s 0 %s %s", h.Hex([]byte("string")), strings.Join(labels, ","), strings.Join(paths, ";")))
+		ops = append(ops, fmt.Sprintf("c10json %s %s", strings.Join(labels, ","), strings.Join(paths, ";")))
 		impl = append(impl, h.Hex([]byte(text)))
 		cases = append(cases, map[string]string{"stream": "jsonparser", "query": query, "impl_sql": text})
 		if i%200 == 0 {
